@@ -7,11 +7,12 @@ import Driver.OpsCompare
 import Driver.OpsMatch
 import Driver.OpsApply
 import Driver.OpsCodec
+import Driver.OpsProject
 open Lean
 namespace Driver
 
 def allOps : List (String × Op) :=
-  opsCompare ++ opsMatch ++ opsApply ++ opsCodec
+  opsCompare ++ opsMatch ++ opsApply ++ opsCodec ++ opsProject
 
 def handle (line : String) : Json :=
   match Json.parse line with
